@@ -92,6 +92,9 @@ def stopStep (A : Arith) (u : Unit) (line : String) : Unit × String :=
     (u, b2d (Stop.x A { blank with xtolRel := hexOr r, xtolAbs := lst ta, xWeights := lst w } ((lst x).getD []) ((lst o).getD [])))
   | ["dx", r, ta, w, x, o] =>
     (u, b2d (Stop.dx A { blank with xtolRel := hexOr r, xtolAbs := lst ta, xWeights := lst w } ((lst x).getD []) ((lst o).getD [])))
+  | ["limited", sme, me, smt, mt] =>
+    -- limits in force during the nested call, then the (restored) limits afterwards; maxeval <= 0 is stored as given
+    (u, s!"{Stop.limitedMaxeval (int sme) (int me)} {(Stop.limitedMaxtime (hexOr smt) (hexOr mt)).toHex} {int sme} {(hexOr smt).toHex}")
   | _ => (u, "bad-op")
 
 end Nlopt.UtilDrv
